@@ -182,6 +182,11 @@ func (d *db) makeRoomForWrite() error {
 // switchToNewLog flushes the index of the current log file to disk, update the
 // readState hold by the db and then switch to a new log file.
 func (d *db) switchToNewLog() error {
+	// the saved index must not refer to records that are not persisted, records
+	// that only update the commit value are written without fsync
+	if err := d.sync(); err != nil {
+		return err
+	}
 	if err := d.saveIndex(); err != nil {
 		return err
 	}
